@@ -135,9 +135,13 @@ def r1_two_directions(run):
     # remove_local
     rl = m.func(ID + "remove_local")
     lcfg = cfg_of(rl, m)
-    loops = [l for l in walk_no_nested(rl.node) if isinstance(l, ast.For)]
+    # loops / deletions that concern the database itself (what the method
+    # does to other objects it keeps is R10's)
+    loops = [l for l in walk_no_nested(rl.node) if isinstance(l, ast.For)
+             and "self.db" in unparse(l.iter)]
     ok = len(loops) == 1 and unparse(loops[0].iter) == "self.db[sid].split(' ')"
-    inner = [s for s in ast.walk(loops[0]) if isinstance(s, ast.Delete)] \
+    inner = [s for s in ast.walk(loops[0]) if isinstance(s, ast.Delete)
+             and unparse(s.targets[0]).startswith("self.db[")] \
         if loops else []
     if ok and len(inner) == 1:
         dn = lcfg.node_of_stmt(inner[0])
@@ -401,10 +405,26 @@ def r4_persistent_stability(run):
         gs = facts(cfg, gn[0][0].id)
         ok = Q("nameid", False) in gs and \
             unparse(arg_of(gn[0][1], 1)) == "NAMEID_FORMAT_PERSISTENT"
-        rets = [r for r in cfg.by_kind("return")
-                if unparse(r.ast.value) == "nameid"]
-        ok = ok and len(rets) == 1 and Q("nameid", True) in {
-            (unparse(e), p) for e, p, _ in cfg.guards(rets[0].id)}
+        # what is handed back is the matched identifier, or the new one
+        # (issued only when nothing matched, see above), or something the
+        # object kept (whose invalidation is R10's): nothing else
+        org = Origins(cfg)
+        seen_match = False
+        for r in cfg.by_kind("return"):
+            if r.ast.value is None:
+                ok = False
+                continue
+            for a in org.of(r.ast.value, r.id):
+                if a.kind == "call" and a.text.split(".")[-1] == "match_local_id":
+                    seen_match = True
+                elif a.kind == "call" and a.text.split(".")[-1] == "get_nameid":
+                    pass
+                elif a.kind != "call" and a.ast is not None and \
+                        unparse(a.ast).startswith("self._"):
+                    pass
+                else:
+                    ok = False
+        ok = ok and seen_match
     run.check(ok, "R4", fi.qual + "::lookup-first",
               "an existing identifier is returned; a new one only when none "
               "matches", "persistent_nameid no longer prefers the stored "
